@@ -1970,7 +1970,7 @@ func replay(path string) {
 		os.Exit(2)
 	}
 	auditFamily := ""
-	for _, f := range []string{"hist", "user_group", "multi_instance", "conn_spelling", "framing_spelling", "env", "proxy_seq", "proxy_connect"} {
+	for _, f := range []string{"hist", "user_group", "multi_instance", "conn_spelling", "framing_spelling", "env", "res_status", "proxy_seq", "proxy_connect", "proxy_res_status"} {
 		if strings.HasPrefix(r.Sig, f+":") {
 			auditFamily = f
 		}
@@ -2132,7 +2132,7 @@ func main() {
 		"influence each other): hist = all interleavings of the request / response steps of 2 and 3 exchanges on one stack; user_group = the stack's inner group populated with passive / adding / failing " +
 		"modifiers; multi_instance = all paths of a request through several stack instances, identity uniqueness, SetBoundary; conn_spelling, framing_spelling, env = single messages with spellings, " +
 		"token counts and environments outside the 12 factors; proxy_seq = all sequences of 1..3 exchanges on one keep-alive client connection through the real proxy; proxy_connect = CONNECT requests " +
-		"(direct and through a downstream proxy)."
+		"(direct and through a downstream proxy); res_status / proxy_res_status = upstream responses of 13 statuses x fixed hop-by-hop subsets x Connection lists, on the stack and through the real proxy."
 	rep.Coverage["bounds"] = fmt.Sprintf("Connection: 0..2 lines, each a comma list of 1..%d tokens of {close, keep-alive, X-Foo, x-foo, ' X-Bar ', ''} (%d configurations); "+
 		"X-Foo {absent, one, two lines}, X-Bar {absent, present}; subsets of 7 fixed hop-by-hop headers (%s); 5 unlisted end-to-end headers always present; "+
 		"%d Via chains (none, foreign one/two/three lines, same pseudonym other boundary, this instance alone/first/last/protocol-name form/second line/second line with comment, and 8 whitespace variants of this instance's entry: HTAB, two SP, SP+HTAB between the fields, HTAB before a comment, OWS around the list separator, at first / middle / last position and on a second line); "+
@@ -2141,7 +2141,8 @@ func main() {
 		"sub-products as listed in stack_spaces / proxy_spaces. Audit families: 7 exchange kinds {plain, loop, loop re-spelled on a later line, foreign chain, Connection-listed, conflicting Content-Length, loop + bad Transfer-Encoding}, "+
 		"pairs x 6 interleavings and triples x 90 interleavings (4 kinds in quick); user modifier behaviours 3 (request) x 6 (response); instances {martian, martian, proxy.example:8080[, martian-1, M]} paths of length <= 3 [4]; "+
 		"8 token spellings x 8 positions, token counts {1,2,7,8,9,10,15,16,17,33,64} x 3 layouts, Connection naming 7 further headers; 15 Content-Length and 24 Transfer-Encoding spellings, 23 empty-line inputs; "+
-		"3 protocol versions x 7 client addresses x 11 URLs; 155 keep-alive sequences; 12 CONNECT cases", maxTokens, connCount(), strings.Join(fixedNames, ", "), nVia)
+		"3 protocol versions x 7 client addresses x 11 URLs; 155 keep-alive sequences; 12 CONNECT cases; response statuses {101, 200, 204, 206, 301, 304, 401, 407, 416, 426, 500, 502, 503} x subsets of the 7 fixed hop-by-hop headers "+
+		"(sizes 0, 1, n-1, n in quick, all 128 in thorough) x 10 Connection lists on the stack, and x {none, each alone, all} (quick) / all subsets (thorough) x 4 Connection lists through the real proxy (the origin answers with that status)", maxTokens, connCount(), strings.Join(fixedNames, ", "), nVia)
 	rep.Assumptions = []string{
 		"header keys are canonical (as net/http produces them when parsing a message); the identity (pseudonym-boundary) of the stack's Via modifier is learnt from the Via entry it stamps on a plain probe request",
 		"Proxy-Connection is not a hop-by-hop header fixed by the HTTP specification: the model accepts it removed or kept",
@@ -2152,6 +2153,7 @@ func main() {
 		"list elements are compared after trimming SP and HTAB, transfer-coding names case-insensitively (RFC 7230); inputs the statement leaves open (Content-Length 5 vs 05, empty list elements in Content-Length, a trailing comma or an empty line in Transfer-Encoding) are run but their framing verdict is not judged",
 		"a managed header (Via, X-Forwarded-*, Content-Length) that the sender's Connection header names counts as not sent: it must not be forwarded and the stack's own stamp is still due",
 		"hop-by-hop headers a user-group modifier adds to a response must not reach the client (the user group runs before the stack's own response modifiers); what a user-group modifier adds to a request is its own business and not judged",
+		"the hop-by-hop obligations on a response do not depend on its status (a 407 or 401 from upstream is stripped like a 200); for statuses without a body (101, 204, 304) only the status and the header fields are judged; a response the proxy generated itself because net/http's client side refused the origin's (recognised by the missing X-Origin-Status marker) is counted, not judged",
 		"a CONNECT counts as sent upstream when the target accepts a connection (direct) or the downstream proxy accepts one; 150 ms are allowed for a dial that must not happen to show up",
 	}
 	if raceRan {
